@@ -345,7 +345,11 @@ func (tp *ethTxPool) Flush() {
 	tp.pending = make(map[common.Address]*txSortedMap)
 	tp.waitingBeats = make(map[common.Address]time.Time)
 	tp.all = make(map[common.Hash]types.Tx)
-	tp.broadcastQueue = clist.New()
+	// empty the broadcast list in place: readers hold on to the list object (TxsFrontWait)
+	for e := tp.broadcastQueue.Front(); e != nil; e = e.Next() {
+		tp.broadcastQueue.Remove(e)
+		e.DetachPrev()
+	}
 	tp.extTxs = clist.New()
 	tp.Unlock()
 }
